@@ -17,17 +17,32 @@
 #define VERIF_MEM_H
 #include "strings.h"            /* VCSTR_EXACT_AT, VMIN */
 
-#define MEMREC_CAP   ((size_t) VCAP)        /* record count cap: keeps sizeof(rec)*cnt representable */
+#ifndef MEMREC_CAP
+# define MEMREC_CAP  ((size_t) VCAP)        /* record count cap: keeps sizeof(rec)*cnt representable */
+#endif
 #define MEMREC_RSZ   (sizeof(spifmem_ptr_t))
 
 /* ---- representation invariant --------------------------------------------------------------
  * ptrs has exactly cnt records; for cnt == 0 it is NULL (never initialised: malloc_rec is a
- * zero-initialised static) or any heap block (spifmem_init's one-record block, or what is left
- * after the last record was removed). */
+ * zero-initialised static) or any live heap block (spifmem_init's one-record block, or what is
+ * left after the last record was removed; vg_n3 = its arbitrary capacity in records).
+ * MEMREC_PRE is the "requires" rendering (is_fresh allocates the table in an enforcing unit and is
+ * checked at a replaced call), MEMREC_POST the "ensures" rendering of the same predicate. */
+#ifndef MEMREC_TYPED
 #define MEMREC_PRE(m) \
     (__CPROVER_rw_ok((m), sizeof(spifmem_memrec_t)) && (m)->cnt <= MEMREC_CAP && vg_n3 <= MEMREC_CAP && \
      (((m)->cnt == 0 && (m)->ptrs == NULL) || \
       __CPROVER_is_fresh((m)->ptrs, MEMREC_RSZ * ((m)->cnt ? (m)->cnt : vg_n3))))
+#define MEMREC_HARNESS_BUILD(m) do { } while (0)
+#else
+/* experiment: table built by the harness as a TYPED array object */
+#define MEMREC_PRE(m) (__CPROVER_rw_ok((m), sizeof(spifmem_memrec_t)) && MEMREC_POST(m))
+#define MEMREC_HARNESS_BUILD(m) do { \
+    (m)->cnt = nondet_size_t(); __CPROVER_assume((m)->cnt <= MEMREC_CAP); \
+    if ((m)->cnt == 0 && nondet_bool()) (m)->ptrs = NULL; \
+    else { size_t vg_cap_ = (m)->cnt; if (vg_cap_ == 0) { vg_cap_ = nondet_size_t(); __CPROVER_assume(vg_cap_ <= MEMREC_CAP); } \
+           (m)->ptrs = __CPROVER_allocate(sizeof(spifmem_ptr_t) * vg_cap_, 0); } } while (0)
+#endif
 #define MEMREC_POST(m) \
     ((m)->cnt <= MEMREC_CAP && \
      (((m)->cnt == 0 && (m)->ptrs == NULL) || \
@@ -78,34 +93,65 @@ __CPROVER_ensures(__CPROVER_return_value == TRUE || __CPROVER_return_value == FA
 ;
 
 #ifndef U_NO_MEM_CONTRACTS
-/* ---- table primitives ------------------------------------------------------------------------ */
+/* ---- table primitives ------------------------------------------------------------------------
+ * Every contract below is ONE contract; an enforcing unit may check it in parts (MEM_PART = 1 shape,
+ * 2 records, 3 no-duplicates): a part keeps the requires clauses it needs and the ensures clauses of
+ * its group, so each part is a theorem with a weaker hypothesis than the whole contract and the
+ * parts together are the whole postcondition.  Without MEM_PART (callers that use the contract at a
+ * replaced call site) all clauses are present.  Reason: with every clause in one query the SAT and
+ * SMT back ends need > 300 s / > 8 GB, the parts take seconds to a minute. */
+#if !defined(MEM_PART) || MEM_PART == 1
+# define MEM_ENS_SHAPE(e)   __CPROVER_ensures(e)
+#else
+# define MEM_ENS_SHAPE(e)
+#endif
+#if !defined(MEM_PART) || MEM_PART == 2
+# define MEM_ENS_REC(e)     __CPROVER_ensures(e)
+# define MEM_REQ_REC(e)     __CPROVER_requires(e)
+#else
+# define MEM_ENS_REC(e)
+# define MEM_REQ_REC(e)
+#endif
+#if !defined(MEM_PART) || MEM_PART == 3
+# define MEM_ENS_NODUP(e)   __CPROVER_ensures(e)
+# define MEM_REQ_NODUP(e)   __CPROVER_requires(e)
+#else
+# define MEM_ENS_NODUP(e)
+# define MEM_REQ_NODUP(e)
+#endif
 
 /* find: NULL iff the pointer is not recorded (seen at vg_r); otherwise the FIRST record with
- * that pointer, whose index is left in vg_fidx */
+ * that pointer, whose index is left in vg_fidx.
+ * pointer_in_range_dfcc: checked as a range fact when this contract is enforced; at a replaced call it
+ * makes the returned pointer "table + offset" for cbmc's points-to analysis (a plain nondet pointer
+ * constrained by == sends the callers' writes through it to every object: 500 MB formulas) */
 spifmem_ptr_t *memrec_find_var(spifmem_memrec_t *memrec, const void *ptr)
 __CPROVER_requires(MEMREC_PRE(memrec))
 __CPROVER_assigns(vg_fidx)
 __CPROVER_ensures(__CPROVER_return_value != NULL || ptr == NULL || MEMREC_ABSENT_AT(memrec, ptr, vg_r))
 __CPROVER_ensures(__CPROVER_return_value == NULL ||
-                  (ptr != NULL && vg_fidx < memrec->cnt && __CPROVER_return_value == memrec->ptrs + vg_fidx &&
+                  (ptr != NULL && vg_fidx < memrec->cnt && memrec->ptrs != NULL &&
+                   __CPROVER_pointer_in_range_dfcc(memrec->ptrs, __CPROVER_return_value, memrec->ptrs + memrec->cnt) &&
+                   __CPROVER_return_value == memrec->ptrs + vg_fidx &&
                    memrec->ptrs[vg_fidx].ptr == ptr && (!(vg_r < vg_fidx) || memrec->ptrs[vg_r].ptr != ptr)))
 ;
 
 /* add: record appended with fields = arguments (file name truncated to 20 characters), the others
  * kept; no duplicate arises when the pointer was not recorded before */
 void memrec_add_var(spifmem_memrec_t *memrec, const char *filename, unsigned long line, void *ptr, size_t size)
-__CPROVER_requires(MEMREC_PRE(memrec) && memrec->cnt < MEMREC_CAP && MEMREC_LOGICAL(memrec))
+__CPROVER_requires(MEMREC_PRE(memrec) && memrec->cnt < MEMREC_CAP)
 __CPROVER_requires(MEM_FNAME_PRE(filename) && line <= 0xffffffffUL)
-__CPROVER_requires(MEMREC_NODUP_AT(memrec, vg_r, vg_r2) && MEMREC_ABSENT_AT(memrec, ptr, vg_r) && MEMREC_ABSENT_AT(memrec, ptr, vg_r2))
+MEM_REQ_REC(MEMREC_LOGICAL(memrec))
+MEM_REQ_NODUP(MEMREC_NODUP_AT(memrec, vg_r, vg_r2) && MEMREC_ABSENT_AT(memrec, ptr, vg_r) && MEMREC_ABSENT_AT(memrec, ptr, vg_r2))
 __CPROVER_assigns(memrec->cnt, memrec->ptrs, vg_exit)
 __CPROVER_assigns(memrec->ptrs != NULL: __CPROVER_object_whole(memrec->ptrs))
 __CPROVER_frees(memrec->ptrs)
-__CPROVER_ensures(MEMREC_POST(memrec) && memrec->cnt == __CPROVER_old(memrec->cnt) + 1)
-__CPROVER_ensures(!(vg_r < __CPROVER_old(memrec->cnt)) || MEMREC_REC_EQ(memrec->ptrs[vg_r], vg_o_r))
-__CPROVER_ensures(vg_r != __CPROVER_old(memrec->cnt) ||
-                  (memrec->ptrs[vg_r].ptr == ptr && memrec->ptrs[vg_r].size == size &&
-                   memrec->ptrs[vg_r].line == (spif_uint32_t) line && MEMREC_FILE_IS(memrec, vg_r, filename)))
-__CPROVER_ensures(MEMREC_NODUP_AT(memrec, vg_r, vg_r2))
+MEM_ENS_SHAPE(MEMREC_POST(memrec) && memrec->cnt == __CPROVER_old(memrec->cnt) + 1)
+MEM_ENS_REC(!(vg_r < __CPROVER_old(memrec->cnt)) || MEMREC_REC_EQ(memrec->ptrs[vg_r], vg_o_r))
+MEM_ENS_REC(vg_r != __CPROVER_old(memrec->cnt) ||
+            (memrec->ptrs[vg_r].ptr == ptr && memrec->ptrs[vg_r].size == size &&
+             memrec->ptrs[vg_r].line == (spif_uint32_t) line && MEMREC_FILE_IS(memrec, vg_r, filename)))
+MEM_ENS_NODUP(MEMREC_NODUP_AT(memrec, vg_r, vg_r2))
 ;
 
 /* remove: either the pointer is not recorded (seen at vg_r) and nothing changes, or the first
@@ -113,41 +159,46 @@ __CPROVER_ensures(MEMREC_NODUP_AT(memrec, vg_r, vg_r2))
  * holds it afterwards" needs the no-duplicates fact for the pair (., vg_fidx): it is stated for
  * the instantiation vg_r2 == vg_fidx (vg_r2 is arbitrary). */
 void memrec_rem_var(spifmem_memrec_t *memrec, const char *var, const char *filename, unsigned long line, const void *ptr)
-__CPROVER_requires(MEMREC_PRE(memrec) && MEMREC_LOGICAL(memrec))
-__CPROVER_requires(MEMREC_NODUP_AT(memrec, vg_r, vg_r2) && MEMREC_NODUP_AT(memrec, vg_r + 1, vg_r2) &&
-                   MEMREC_NODUP_AT(memrec, vg_r, vg_r2 + 1) && MEMREC_NODUP_AT(memrec, vg_r + 1, vg_r2 + 1))
+__CPROVER_requires(MEMREC_PRE(memrec))
+MEM_REQ_REC(MEMREC_LOGICAL(memrec))
+MEM_REQ_NODUP(MEMREC_NODUP_AT(memrec, vg_r, vg_r2) && MEMREC_NODUP_AT(memrec, vg_r + 1, vg_r2) &&
+              MEMREC_NODUP_AT(memrec, vg_r, vg_r2 + 1) && MEMREC_NODUP_AT(memrec, vg_r + 1, vg_r2 + 1))
 __CPROVER_assigns(memrec->cnt, memrec->ptrs, vg_fidx)
 __CPROVER_assigns(memrec->ptrs != NULL: __CPROVER_object_whole(memrec->ptrs))
 __CPROVER_frees(memrec->ptrs)
-__CPROVER_ensures(MEMREC_POST(memrec))
-__CPROVER_ensures(
-    /* unknown pointer: table unchanged */
-    (memrec->cnt == __CPROVER_old(memrec->cnt) && memrec->ptrs == __CPROVER_old(memrec->ptrs) &&
+MEM_ENS_SHAPE(MEMREC_POST(memrec))
+MEM_ENS_SHAPE((memrec->cnt == __CPROVER_old(memrec->cnt) && memrec->ptrs == __CPROVER_old(memrec->ptrs)) ||
+              (ptr != NULL && memrec->cnt + 1 == __CPROVER_old(memrec->cnt) && vg_fidx <= memrec->cnt))
+MEM_ENS_REC(
+    /* unknown pointer (seen at vg_r): table unchanged */
+    (memrec->cnt == __CPROVER_old(memrec->cnt) &&
      (ptr == NULL || !(vg_r < memrec->cnt) || vg_o_r.ptr != ptr) &&
      (!(vg_r < memrec->cnt) || MEMREC_REC_EQ(memrec->ptrs[vg_r], vg_o_r)))
     ||
-    /* known pointer: record vg_fidx removed */
-    (ptr != NULL && memrec->cnt + 1 == __CPROVER_old(memrec->cnt) && vg_fidx <= memrec->cnt &&
+    /* known pointer: record vg_fidx removed, the others keep their order */
+    (memrec->cnt + 1 == __CPROVER_old(memrec->cnt) &&
      (vg_fidx != vg_r2 || vg_o_r2.ptr == ptr) &&
      (!(vg_r < memrec->cnt) ||
-      (vg_r < vg_fidx ? MEMREC_REC_EQ(memrec->ptrs[vg_r], vg_o_r) : MEMREC_REC_EQ(memrec->ptrs[vg_r], vg_o_r1))) &&
-     (vg_fidx != vg_r2 || MEMREC_ABSENT_AT(memrec, ptr, vg_r))))
-__CPROVER_ensures(MEMREC_NODUP_AT(memrec, vg_r, vg_r2))
+      (vg_r < vg_fidx ? MEMREC_REC_EQ(memrec->ptrs[vg_r], vg_o_r) : MEMREC_REC_EQ(memrec->ptrs[vg_r], vg_o_r1)))))
+MEM_ENS_NODUP(MEMREC_NODUP_AT(memrec, vg_r, vg_r2))
+/* that record is gone: after a removal no record holds ptr (instantiation vg_r2 == vg_fidx) */
+MEM_ENS_NODUP(memrec->cnt == __CPROVER_old(memrec->cnt) || vg_fidx != vg_r2 || MEMREC_ABSENT_AT(memrec, ptr, vg_r))
 ;
 
 /* change: unknown pointer => unchanged; otherwise the first record holding oldp (index vg_fidx)
  * becomes (newp, size, truncated file name, line), everything else is kept */
 void memrec_chg_var(spifmem_memrec_t *memrec, const char *var, const char *filename, unsigned long line, const void *oldp, void *newp, size_t size)
-__CPROVER_requires(MEMREC_PRE(memrec) && MEMREC_LOGICAL(memrec))
+__CPROVER_requires(MEMREC_PRE(memrec))
 __CPROVER_requires(MEM_FNAME_PRE(filename) && line <= 0xffffffffUL)
-__CPROVER_requires(MEMREC_NODUP_AT(memrec, vg_r, vg_r2))
+MEM_REQ_REC(MEMREC_LOGICAL(memrec))
+MEM_REQ_NODUP(MEMREC_NODUP_AT(memrec, vg_r, vg_r2))
 /* the new address is not the address of another record */
-__CPROVER_requires(!(vg_r < memrec->cnt) || memrec->ptrs[vg_r].ptr != newp || memrec->ptrs[vg_r].ptr == oldp)
-__CPROVER_requires(!(vg_r2 < memrec->cnt) || memrec->ptrs[vg_r2].ptr != newp || memrec->ptrs[vg_r2].ptr == oldp)
+MEM_REQ_NODUP(!(vg_r < memrec->cnt) || memrec->ptrs[vg_r].ptr != newp || memrec->ptrs[vg_r].ptr == oldp)
+MEM_REQ_NODUP(!(vg_r2 < memrec->cnt) || memrec->ptrs[vg_r2].ptr != newp || memrec->ptrs[vg_r2].ptr == oldp)
 __CPROVER_assigns(vg_fidx, vg_exit)
 __CPROVER_assigns(memrec->ptrs != NULL: __CPROVER_object_whole(memrec->ptrs))
-__CPROVER_ensures(MEMREC_POST(memrec) && memrec->cnt == __CPROVER_old(memrec->cnt) && memrec->ptrs == __CPROVER_old(memrec->ptrs))
-__CPROVER_ensures(
+MEM_ENS_SHAPE(MEMREC_POST(memrec) && memrec->cnt == __CPROVER_old(memrec->cnt) && memrec->ptrs == __CPROVER_old(memrec->ptrs))
+MEM_ENS_REC(
     ((oldp == NULL || !(vg_r < memrec->cnt) || vg_o_r.ptr != oldp) &&
      (!(vg_r < memrec->cnt) || MEMREC_REC_EQ(memrec->ptrs[vg_r], vg_o_r)))
     ||
@@ -157,7 +208,7 @@ __CPROVER_ensures(
      (vg_r != vg_fidx ||
       (memrec->ptrs[vg_r].ptr == newp && memrec->ptrs[vg_r].size == size &&
        memrec->ptrs[vg_r].line == (spif_uint32_t) line && MEMREC_FILE_IS(memrec, vg_r, filename)))))
-__CPROVER_ensures(MEMREC_NODUP_AT(memrec, vg_r, vg_r2))
+MEM_ENS_NODUP(MEMREC_NODUP_AT(memrec, vg_r, vg_r2))
 ;
 #endif /* U_NO_MEM_CONTRACTS */
 
